@@ -7,6 +7,8 @@ statement, instruction by instruction); the correspondence stream `exec` ties it
 instruction (no size, depth or step bound).
 -/
 import NetqasmVerif.Lemmas.ExecRun
+import NetqasmVerif.Props.C13
+import NetqasmVerif.Lemmas.ExecAsmBridge
 namespace NQ.C04
 open NQ.Exec
 
@@ -16,20 +18,50 @@ open NQ.Exec
 applications, the used-qubit set, the reserved set and the registry unchanged.  (`usedKey` is the
 `set.remove` KeyError inside `qfree`, raised after the unit module was already edited; it needs a
 mapped physical id that is not marked used, which C13.reachable excludes.) -/
-theorem fault_atomic (hw : Bool) (a : Nat) (i : Instr) (s s' : State) (pc : Int) (f : Fault)
+theorem fault_atomic (hw : Bool) (a : Nat) (i : Exec.Instr) (s s' : State) (pc : Int) (f : Fault)
     (h : step hw a i s pc = .fault s' f) (hk : f ≠ .usedKey) :
     s'.apps = s.apps ∧ s'.used = s.used ∧ s'.reserved = s.reserved ∧ s'.registry = s.registry :=
   step_fault_atomic h hk
 
+/-- **No side condition on reachable states.**  Under the C13 invariant (which holds after every
+history, `C13.reachable`) the `set.remove` KeyError cannot occur, so every fault of every
+instruction is atomic. -/
+theorem fault_atomic_inv (hw : Bool) (a : Nat) (i : Exec.Instr) (s s' : State) (pc : Int) (f : Fault)
+    (hI : Exec.Inv s) (h : step hw a i s pc = .fault s' f) :
+    s'.apps = s.apps ∧ s'.used = s.used ∧ s'.reserved = s.reserved ∧ s'.registry = s.registry := by
+  apply step_fault_atomic h
+  intro e
+  subst e
+  exact Exec.no_usedKey hw a i s s' pc hI h
+
+/-- the property's fault clause as stated, over histories: after ANY history of operations from
+the initial controller state (keep-responses delivering qubits the link layer holds), an
+instruction that faults leaves registers, arrays, shared memory, unit modules and the used set of
+all applications unchanged -/
+theorem fault_atomic_reachable (ops : List Op) (he : C13.EnvOkAll init0 ops) (hw : Bool) (a : Nat)
+    (i : Exec.Instr) (s' : State) (pc : Int) (f : Fault)
+    (h : step hw a i (ops.foldl apply init0) pc = .fault s' f) :
+    s'.apps = (ops.foldl apply init0).apps ∧ s'.used = (ops.foldl apply init0).used ∧
+    s'.reserved = (ops.foldl apply init0).reserved ∧ s'.registry = (ops.foldl apply init0).registry :=
+  fault_atomic_inv hw a i _ s' pc f (C13.reachable_from_init ops he) h
+
+/-- … also with subroutines of several applications in flight (any interleaving) -/
+theorem fault_atomic_interleaved (iops : List IOp) (he : C13.ienvOkAll sys0 iops = true) (hw : Bool)
+    (a : Nat) (i : Exec.Instr) (s' : State) (pc : Int) (f : Fault)
+    (h : step hw a i (iops.foldl iapply sys0).s pc = .fault s' f) :
+    s'.apps = (iops.foldl iapply sys0).s.apps ∧ s'.used = (iops.foldl iapply sys0).s.used :=
+  let r := fault_atomic_inv hw a i _ s' pc f (C13.reachable_interleaved iops sys0 C13.inv_init he) h
+  ⟨r.1, r.2.1⟩
+
 /-- … and for every instruction but `meas` (whose hook `_do_meas` has already run when the
 outcome turns out not to fit) the complete state, trace and oracle included, is unchanged. -/
-theorem fault_atomic_strict (hw : Bool) (a : Nat) (i : Instr) (s s' : State) (pc : Int) (f : Fault)
+theorem fault_atomic_strict (hw : Bool) (a : Nat) (i : Exec.Instr) (s s' : State) (pc : Int) (f : Fault)
     (h : step hw a i s pc = .fault s' f) (hk : f ≠ .usedKey) (hm : ∀ q c, i ≠ .meas q c) : s' = s :=
   step_fault_eq h hk hm
 
 /-- The line named by a fault is the program counter where execution stopped, which is the last
 instruction started. -/
-theorem fault_names_line (hw : Bool) (a : Nat) (prog : List Instr) (fuel : Nat) (s : State) (pc : Int)
+theorem fault_names_line (hw : Bool) (a : Nat) (prog : List Exec.Instr) (fuel : Nat) (s : State) (pc : Int)
     (f : Fault) (ln : Int) (h : (run hw a prog fuel s pc).out = .fault f (some ln)) :
     (run hw a prog fuel s pc).pc = ln ∧ (run hw a prog fuel s pc).visited.getLast? = some ln :=
   run_fault_line hw a prog fuel s pc f ln h
@@ -96,6 +128,33 @@ theorem undef_past_end_faults (hw a l pc ad ix) (k : Int) (arr : List Val)
     stepLoc hw a (.undef ad ix) l pc = .fault l .index := by
   simp [stepLoc, hi, hf, ha, pyIdx_past_end hk]
 
+/-- hardware mode: a value that does not fit 32 bits is rejected (`_assert_within_width`,
+OverflowError) by `set`, by `lea`, and by the result of `add`/`sub`; in simulation mode nothing
+overflows -/
+theorem set_overflow_faults (a l pc r) (v : Int) (h : v < -2147483648 ∨ 2147483647 < v) :
+    stepLoc true a (.set r v) l pc = .fault l .overflow := by
+  have : fits true v = false := by
+    simp only [fits, Bool.not_true, Bool.false_or, Bool.and_eq_false_iff, decide_eq_false_iff_not]
+    omega
+  simp [stepLoc, wr, this]
+
+theorem lea_overflow_faults (a l pc r) (ad : Int) (h : ad < -2147483648 ∨ 2147483647 < ad) :
+    stepLoc true a (.lea r ad) l pc = .fault l .overflow := by
+  have : fits true ad = false := by
+    simp only [fits, Bool.not_true, Bool.false_or, Bool.and_eq_false_iff, decide_eq_false_iff_not]
+    omega
+  simp [stepLoc, wr, this]
+
+theorem add_overflow_faults (a l pc d x y) (u v : Int) (hx : l.ap.regs x = some u)
+    (hy : l.ap.regs y = some v) (h : u + v < -2147483648 ∨ 2147483647 < u + v) :
+    stepLoc true a (.add d x y) l pc = .fault l .overflow := by
+  have : fits true (u + v) = false := by
+    simp only [fits, Bool.not_true, Bool.false_or, Bool.and_eq_false_iff, decide_eq_false_iff_not]
+    omega
+  simp [stepLoc, arith, wr, hx, hy, this]
+
+theorem sim_never_overflows (v : Int) : fits false v = true := rfl
+
 /-- a fault of the application's instruction is the controller's fault, at the same state -/
 theorem fault_lifts (hw a i s pc ap f) (h : s.apps a = some ap)
     (hl : stepLoc hw a i (s.loc ap) pc = .fault (s.loc ap) f) : step hw a i s pc = .fault s f := by
@@ -106,15 +165,15 @@ theorem fault_lifts (hw a i s pc ap f) (h : s.apps a = some ap)
 /-- Footprint of a successful instruction of application `a`: only the written register, the
 written array, the returned shared-memory register/array slot can change; the unit module and the
 used set only under `qalloc/qfree`; trace and oracle only under quantum instructions. -/
-theorem step_frame (hw : Bool) (a : Nat) (i : Instr) (l l' : Loc) (pc pc' : Int)
+theorem step_frame (hw : Bool) (a : Nat) (i : Exec.Instr) (l l' : Loc) (pc pc' : Int)
     (h : stepLoc hw a i l pc = .ok l' pc') : Frame i l l' := stepLoc_frame h
 
 /-- … and nothing of any other application changes (success or fault). -/
-theorem step_frame_apps (hw : Bool) (a : Nat) (i : Instr) (s : State) (pc : Int) (b : Nat) (hb : b ≠ a) :
+theorem step_frame_apps (hw : Bool) (a : Nat) (i : Exec.Instr) (s : State) (pc : Int) (b : Nat) (hb : b ≠ a) :
     (step hw a i s pc).st.apps b = s.apps b := step_apps_other hw a i s pc b hb
 
 /-- the link-layer bookkeeping and the shared-memory registry are never touched by an instruction -/
-theorem step_frame_global (hw : Bool) (a : Nat) (i : Instr) (s : State) (pc : Int) :
+theorem step_frame_global (hw : Bool) (a : Nat) (i : Exec.Instr) (s : State) (pc : Int) :
     (step hw a i s pc).st.reserved = s.reserved ∧ (step hw a i s pc).st.registry = s.registry :=
   step_reserved_registry hw a i s pc
 
@@ -226,7 +285,7 @@ theorem run_det (hw a prog fuel s pc) (r₁ r₂ : RunOut) (h₁ : run hw a prog
 
 /-- a run that finished (halted or faulted) within `fuel` steps is unchanged by any larger bound:
 the step bound of the correspondence stream only cuts non-terminating programs -/
-theorem run_fuel_mono (hw : Bool) (a : Nat) (prog : List Instr) (fuel k : Nat) (s : State) (pc : Int)
+theorem run_fuel_mono (hw : Bool) (a : Nat) (prog : List Exec.Instr) (fuel k : Nat) (s : State) (pc : Int)
     (h : (run hw a prog fuel s pc).out ≠ .outOfFuel) :
     run hw a prog (fuel + k) s pc = run hw a prog fuel s pc :=
   Exec.run_fuel_mono hw a prog fuel k s pc h
@@ -234,10 +293,10 @@ theorem run_fuel_mono (hw : Bool) (a : Nat) (prog : List Instr) (fuel k : Nat) (
 /-- Repeated execution: several subroutines (each with its own step bound) run one after the other
 against the same application state.  All lemmas above are state-generic, so they apply to every
 subroutine of the sequence; in particular the whole sequence never touches another application. -/
-def runAll (hw : Bool) (a : Nat) (subs : List (List Instr × Nat)) (s : State) : State :=
+def runAll (hw : Bool) (a : Nat) (subs : List (List Exec.Instr × Nat)) (s : State) : State :=
   subs.foldl (fun s pf => (run hw a pf.1 pf.2 s 0).s) s
 
-theorem runAll_frame_apps (hw : Bool) (a : Nat) (subs : List (List Instr × Nat)) (s : State) (b : Nat)
+theorem runAll_frame_apps (hw : Bool) (a : Nat) (subs : List (List Exec.Instr × Nat)) (s : State) (b : Nat)
     (hb : b ≠ a) : (runAll hw a subs s).apps b = s.apps b := by
   unfold runAll
   induction subs generalizing s with
@@ -245,6 +304,22 @@ theorem runAll_frame_apps (hw : Bool) (a : Nat) (subs : List (List Instr × Nat)
   | cons pf rest ih =>
     simp only [List.foldl_cons]
     rw [ih, run_apps_other hw a pf.1 pf.2 s 0 b hb]
+
+/-- `run` (fuel) and the relational multi-step closure `XSteps` of the assembler proofs (C03)
+describe the same executions of a registered application: C03's `assemble_simulates_exec`
+therefore speaks about `Exec.run` (apply `run_of_xsteps` to its conclusion). -/
+theorem run_iff_steps {a : Nat} {X : List Exec.Instr} (s : State) (ap : App) (hap : s.apps a = some ap)
+    (pc pc' : Int) (l' : Loc) :
+    NQ.Asm.XSteps a X (s.loc ap, pc) (l', pc') ↔
+    ∃ n, (run false a X n s pc).s = s.put a l' ∧ (run false a X n s pc).pc = pc' ∧
+      (run false a X n s pc).out = restOut X pc' ∧ (∀ v ∈ (run false a X n s pc).visited, 0 ≤ v) :=
+  Exec.run_iff_steps s ap hap pc pc' l'
+
+theorem run_of_xsteps {a : Nat} {X : List Exec.Instr} {c c' : Loc × Int} (h : NQ.Asm.XSteps a X c c')
+    (s : State) (hap : s.apps a = some c.1.ap) (hloc : s.loc c.1.ap = c.1) :
+    ∃ n, (run false a X n s c.2).s = s.put a c'.1 ∧ (run false a X n s c.2).pc = c'.2 ∧
+      (run false a X n s c.2).out = restOut X c'.2 ∧ (∀ v ∈ (run false a X n s c.2).visited, 0 ≤ v) :=
+  Exec.run_of_xsteps h s hap hloc
 
 /-! ## Returned values -/
 
